@@ -1,7 +1,7 @@
 /* C14 scenario: pipeline logger (standard formatter + foreground/background channel + recording writer),
  * the no-alloc logger and the fixed-buffer line formatter, under the controlled scheduler.
  * Scenario lines:
- *   LOGGER <bg|fg> <filter 0..6>
+ *   LOGGER <bg|fg|na> <filter 0..6>      na = the no-alloc logger writing to a memory stream (lines observed at clean-up)
  *   PRE <op> ...            main thread, before the producers are launched
  *   PRODUCER <k> <op> ...   k = 1..3, run concurrently
  *   POST <op> ...           main thread, after the producers were joined (before clean up)
@@ -266,7 +266,7 @@ static void scenario(char **lines, int nlines) {
     closed_flag = false;
     memset(payload, 'x', sizeof(payload) - 1);
     payload[sizeof(payload) - 1] = 0;
-    bool bg = true, have_logger = false;
+    bool bg = true, have_logger = false, na = false;
     int filter = 6;
     for (int i = 0; i < nlines; ++i) {
         char *dup = strdup(lines[i]);
@@ -274,7 +274,9 @@ static void scenario(char **lines, int nlines) {
         char *tok = strtok_r(dup, " ", &save);
         if (!tok) {
         } else if (strcmp(tok, "LOGGER") == 0) {
-            bg = strcmp(strtok_r(NULL, " ", &save), "bg") == 0;
+            const char *m = strtok_r(NULL, " ", &save);
+            bg = strcmp(m, "bg") == 0;
+            na = strcmp(m, "na") == 0;
             filter = atoi(strtok_r(NULL, " ", &save));
             have_logger = true;
         } else if (strcmp(tok, "PRE") == 0) {
@@ -299,23 +301,38 @@ static void scenario(char **lines, int nlines) {
     if (!have_logger) {
         return;
     }
-    struct aws_log_formatter_standard_options fopt = {.date_format = AWS_DATE_FORMAT_ISO_8601};
-    aws_log_formatter_init_default(&formatter, vh_alloc(), &fopt);
-    writer.vtable = &writer_vtable;
-    writer.allocator = vh_alloc();
-    writer.impl = NULL;
-    if (bg) {
-        aws_log_channel_init_background(&channel, vh_alloc(), &writer);
+    char *na_mem = NULL;
+    size_t na_size = 0;
+    FILE *na_stream = NULL;
+    if (na) {
+        na_stream = open_memstream(&na_mem, &na_size);
+        struct aws_logger_standard_options opt = {.level = (enum aws_log_level)filter, .filename = NULL, .file = na_stream};
+        aws_logger_init_noalloc(&logger, vh_alloc(), &opt);
+        aws_logger_set(&logger);
+        vh_begin("Setup");
+        vh_str("mode", "na");
+        vh_int("filter", filter);
+        vh_int("main", vs_self());
+        vh_end();
     } else {
-        aws_log_channel_init_foreground(&channel, vh_alloc(), &writer);
+        struct aws_log_formatter_standard_options fopt = {.date_format = AWS_DATE_FORMAT_ISO_8601};
+        aws_log_formatter_init_default(&formatter, vh_alloc(), &fopt);
+        writer.vtable = &writer_vtable;
+        writer.allocator = vh_alloc();
+        writer.impl = NULL;
+        if (bg) {
+            aws_log_channel_init_background(&channel, vh_alloc(), &writer);
+        } else {
+            aws_log_channel_init_foreground(&channel, vh_alloc(), &writer);
+        }
+        aws_logger_init_from_external(&logger, vh_alloc(), &formatter, &channel, &writer, (enum aws_log_level)filter);
+        aws_logger_set(&logger);
+        vh_begin("Setup");
+        vh_str("mode", bg ? "bg" : "fg");
+        vh_int("filter", filter);
+        vh_int("main", vs_self());
+        vh_end();
     }
-    aws_logger_init_from_external(&logger, vh_alloc(), &formatter, &channel, &writer, (enum aws_log_level)filter);
-    aws_logger_set(&logger);
-    vh_begin("Setup");
-    vh_str("mode", bg ? "bg" : "fg");
-    vh_int("filter", filter);
-    vh_int("main", vs_self());
-    vh_end();
     pre.k = 0;
     do_ops(&pre);
     for (int i = 0; i < nprods; ++i) {
@@ -332,6 +349,28 @@ static void scenario(char **lines, int nlines) {
     vh_begin("CleanUpBegin");
     vh_end();
     aws_logger_set(NULL);
+    if (na) {
+        /* the no-alloc logger writes straight to the stream: report what arrived there, line by line, in file order */
+        fflush(na_stream);
+        size_t start = 0;
+        for (size_t i = 0; i < na_size; ++i) {
+            if (na_mem[i] == '\n' || i + 1 == na_size) {
+                vh_begin("Write");
+                vh_int("on", -1);
+                vh_int("afterclose", 0);
+                describe_line((uint8_t *)na_mem + start, i + 1 - start);
+                vh_end();
+                start = i + 1;
+            }
+        }
+        aws_logger_clean_up(&logger);
+        fclose(na_stream);
+        free(na_mem);
+        closed_flag = true;
+        vh_begin("CleanUpRet");
+        vh_end();
+        return;
+    }
     aws_logger_clean_up(&logger);
     aws_log_channel_clean_up(&channel);
     closed_flag = true;
